@@ -44,12 +44,15 @@ META = {
         "through re.escape, the wildcard as MAX_REPEAT(0, inf, ANY)); its complete output, including the end-of-pattern flush, on every "
         "abstract pattern up to length 2*|states|+1 must equal the documented two-state machine ('*' -> any run, backslash-star -> "
         "literal star, every other character itself, a backslash not followed by '*' is itself). The compile flags must not fold case "
-        "and the ANY fragment must match every character (DOTALL). "
+        "and the ANY fragment must match every character (DOTALL). A rewrite of the raw pattern in front of the character scan "
+        "(re.sub / str.replace with constant arguments) is applied to every abstract pattern and the composed translation must still "
+        "equal the documented machine up to ANY* ANY* = ANY* (an escape-unaware collapse of '**' fails on backslash-star-star); "
+        "case/whitespace-changing string methods on the pattern are rejected. "
         "R2 (API): match_with_wildcard returns True exactly under `pattern is None`, otherwise fullmatch of the unmodified name against "
         "the regex built from the unmodified pattern; the cached translator has the pattern as its only parameter, reads no mutable "
         "global, and every call passes the whole pattern. "
         "R3 (the two filter functions): a role inference over the nested loops (inventory key / domain / object type / name, item "
-        "fields; split(':', 1) of the Sphinx key; the 4-tuple item) shows that each coordinate is tested against its own filter - through "
+        "fields; the Sphinx `domain:type` key cut at the same colon as from_sphinx and the native loader cut it; the 4-tuple item) shows that each coordinate is tested against its own filter - through "
         "match_with_wildcard or through _create_regex(<filter>).fullmatch, never Pattern.match/search and never on the joined "
         "domain:type key -, that all four tests dominate every yield (an `f is None or ...` disjunct is accepted), that the InvMatch "
         "fields are filled from the same roles in both representations (the '-' text normalisation agrees with from_sphinx), that "
@@ -84,6 +87,7 @@ META = {
         "fullmatch of a concatenation of LIT / ANY* fragments compiled with DOTALL is the documented matching relation",
         "a pattern without '*' consists of literal characters only (used to accept a guarded literal-key shortcut)",
         "the statements of a try body other than the href parse do not raise the handled exception",
+        "a constant regex / replacement applied to the raw pattern treats every character it does not mention alike (regexes with classes, categories or '.' are answered ANALYSIS-ERROR)",
     ],
 }
 
@@ -209,8 +213,36 @@ class Transducer:
         self._build()
 
     # -- function shape -------------------------------------------------------
+    LOSSY = {"lower", "upper", "casefold", "title", "capitalize", "swapcase", "strip", "lstrip", "rstrip"}
+
+    def _rewrite_of(self, val: ast.expr):
+        """(holder name, rewrite description | None) when ``val`` is a (rewritten) copy of the pattern."""
+        if isinstance(val, ast.Name) and val.id in self.holders:
+            return val.id, None
+        if isinstance(val, ast.Call) and not val.keywords:
+            if self.mod.resolve(dotted(val.func) or "") == "re.sub" and len(val.args) == 3 and isinstance(val.args[2], ast.Name) and val.args[2].id in self.holders:
+                try:
+                    p_, r_ = self.mod.eval_const(val.args[0]), self.mod.eval_const(val.args[1])
+                except Unsupported:
+                    return None
+                if isinstance(p_, str) and isinstance(r_, str):
+                    return val.args[2].id, ("sub", p_, r_, val)
+            if isinstance(val.func, ast.Attribute) and isinstance(val.func.value, ast.Name) and val.func.value.id in self.holders:
+                if val.func.attr == "replace" and len(val.args) == 2:
+                    try:
+                        a_, b_ = self.mod.eval_const(val.args[0]), self.mod.eval_const(val.args[1])
+                    except Unsupported:
+                        return None
+                    if isinstance(a_, str) and isinstance(b_, str):
+                        return val.func.value.id, ("replace", a_, b_, val)
+                if val.func.attr in self.LOSSY:
+                    return val.func.value.id, ("lossy", val.func.attr, None, val)
+        return None
+
     def _split_body(self) -> None:
         phase = "pre"
+        self.holders: dict[str, list] = {self.pat: []}  # names holding the (possibly rewritten) pattern
+        self.rewrites: list = []
         for st in self.fi.node.body:
             if isinstance(st, ast.Expr) and isinstance(st.value, ast.Constant):
                 continue  # docstring
@@ -229,9 +261,15 @@ class Transducer:
                     if isinstance(val.value, bool):
                         self.flags0[tgt] = val.value
                         continue
+                if tgt is not None:
+                    rw = self._rewrite_of(val)
+                    if rw is not None:
+                        self.holders[tgt] = self.holders[rw[0]] + ([rw[1]] if rw[1] is not None else [])
+                        continue
                 if isinstance(st, ast.For):
-                    if not (isinstance(st.iter, ast.Name) and st.iter.id == self.pat):
-                        raise Unsupported(f"the translator loop iterates `{short(st.iter, 40)}`, not the pattern parameter itself")
+                    if not (isinstance(st.iter, ast.Name) and st.iter.id in self.holders):
+                        raise Unsupported(f"the translator loop iterates `{short(st.iter, 40)}`, not the pattern parameter (or an understood rewrite of it)")
+                    self.rewrites = self.holders[st.iter.id]
                     if not isinstance(st.target, ast.Name) or st.orelse:
                         raise Unsupported("translator loop target/else not understood")
                     self.loop = st
@@ -264,10 +302,46 @@ class Transducer:
                     for it in items:
                         if isinstance(it, str) and len(it) == 1 and it not in cls:
                             cls.append(it)
+        for rw in self.rewrites:
+            lits = set()
+            if rw[0] == "sub":
+                lits |= _regex_literals(rw[1]) | set(rw[2])
+            elif rw[0] == "replace":
+                lits |= set(rw[1]) | set(rw[2])
+            for ch in sorted(lits):
+                if ch not in cls:
+                    cls.append(ch)
         return cls + [OTHER]
 
+    REP = "\x01"  # stands for "any other character" when a rewrite is applied to an abstract pattern
+
+    def rewrite(self, seq):
+        """The class sequence the loop sees for the abstract pattern ``seq`` (stdlib re.sub / str.replace on constants of the source)."""
+        if not self.rewrites:
+            return seq
+        import re as _re
+
+        text = "".join(self.REP if c == OTHER else c for c in seq)
+        for rw in self.rewrites:
+            if rw[0] == "sub":
+                try:
+                    text = _re.sub(rw[1], rw[2], text)
+                except Exception as e:
+                    raise Unsupported(f"re.sub({rw[1]!r}, {rw[2]!r}, ...) fails on an abstract pattern: {e}") from None
+            elif rw[0] == "replace":
+                text = text.replace(rw[1], rw[2])
+        out = []
+        for ch in text:
+            if ch == self.REP:
+                out.append(OTHER)
+            elif ch in self.classes:
+                out.append(ch)
+            else:
+                raise Unsupported(f"pattern rewrite produces character {ch!r} outside the modelled classes")
+        return tuple(out)
+
     def _const(self, e: ast.expr):
-        if isinstance(e, ast.Name) and e.id in (self.char, self.acc, self.pat) or (isinstance(e, ast.Name) and e.id in self.flags0):
+        if isinstance(e, ast.Name) and (e.id in (self.char, self.acc, self.pat) or e.id in self.holders) or (isinstance(e, ast.Name) and e.id in self.flags0):
             raise Unsupported("not a constant")
         return self.mod.eval_const(e)
 
@@ -466,6 +540,63 @@ def _classify_item(op, av, text, dotall) -> tuple:
     raise Unsupported(f"regex fragment {text!r} contains {name}, which is neither a literal nor a repetition of ANY")
 
 
+def _regex_literals(pattern: str) -> set[str]:
+    """Literal characters a constant regex mentions; Unsupported if it uses classes / categories / the dot
+    (then "any other character" would not be one uniform class)."""
+    try:
+        tree = sre_parse.parse(pattern)
+    except Exception as e:
+        raise Unsupported(f"regex {pattern!r} does not parse: {e}") from None
+    out: set[str] = set()
+
+    def walk(x):
+        if isinstance(x, sre_parse.SubPattern):
+            for it in x.data:
+                walk(it)
+            return
+        if isinstance(x, tuple) and len(x) == 2 and not isinstance(x[0], (tuple, list, sre_parse.SubPattern)) and str(x[0]).isupper():
+            op, av = str(x[0]), x[1]
+            if op in ("LITERAL", "NOT_LITERAL"):
+                out.add(chr(av))
+            elif op in ("ANY", "CATEGORY", "RANGE"):
+                raise Unsupported(f"regex {pattern!r} uses {op}: the effect on 'any other character' is not uniform")
+            elif op == "IN":
+                for it in av:
+                    walk(it)
+            elif op == "NEGATE":
+                pass
+            elif op in ("MAX_REPEAT", "MIN_REPEAT", "POSSESSIVE_REPEAT"):
+                walk(av[2])
+            elif op == "SUBPATTERN":
+                walk(av[3])
+            elif op == "BRANCH":
+                for b in av[1]:
+                    walk(b)
+            elif op in ("ASSERT", "ASSERT_NOT"):
+                walk(av[1])
+            elif op in ("AT", "GROUPREF"):
+                pass
+            else:
+                raise Unsupported(f"regex {pattern!r} uses {op}, which is not modelled")
+            return
+        if isinstance(x, (list, tuple)):
+            for it in x:
+                walk(it)
+
+    walk(tree)
+    return out
+
+
+def _merge_any(fr: list) -> list:
+    """ANY* ANY* matches the same strings as ANY*: adjacent unbounded wildcards are one."""
+    out: list = []
+    for f in fr:
+        if out and f[:3] == ("ANY", 0, "inf") and out[-1][:3] == ("ANY", 0, "inf"):
+            continue
+        out.append(f)
+    return out
+
+
 def spec_output(seq) -> tuple[list, list]:
     """The documented machine: states N (nothing pending) / P (backslash pending)."""
     s = "N"
@@ -543,14 +674,29 @@ def r1_transducer(corpus: Corpus, rep: Report, tier: str):
         raise Unsupported(f"translator has {len(tx.states)} flag states x {len(tx.classes)} character classes: too large to compare exhaustively")
     bad: dict[str, tuple] = {}
     n_seq = 0
+    RW_KEY = f"{fi.fq}|the pattern is rewritten before it is translated"
+    lossy = [rw for rw in tx.rewrites if rw[0] == "lossy"]
     for n in range(0, L + 1):
         for seq in itertools.product(tx.classes, repeat=n):
             n_seq += 1
-            isteps, iend = tx.output(seq)
             ssteps, send, sfinal = spec_output(seq)
-            ifl = _strip([f for s in isteps for f in s])
             sfl = [f for s in ssteps for f in s]
-            if ifl + _strip(iend) == sfl + send:
+            if tx.rewrites and not lossy:
+                rsteps, rend = tx.output(tx.rewrite(seq))
+                rfl = _strip([f for s in rsteps for f in s]) + _strip(rend)
+                if _merge_any(rfl) != _merge_any(sfl + send):
+                    psteps, pend = tx.output(seq)
+                    plain = _strip([f for s in psteps for f in s]) + _strip(pend)
+                    if _merge_any(plain) == _merge_any(sfl + send):
+                        # the character scan alone is right for this pattern: the rewrite in front of it breaks it
+                        if RW_KEY not in bad:
+                            bad[RW_KEY] = (seq, rfl, sfl + send, ("REWRITE", tx.rewrite(seq)))
+                        continue
+                else:
+                    continue
+            isteps, iend = tx.output(seq)
+            ifl = _strip([f for s in isteps for f in s])
+            if _merge_any(ifl + _strip(iend)) == _merge_any(sfl + send):
                 continue
             states = _spec_states(seq)
             if ifl == sfl:
@@ -570,6 +716,19 @@ def r1_transducer(corpus: Corpus, rep: Report, tier: str):
             key = _cell_key(fi, cell)
             if key not in bad:
                 bad[key] = (seq, ifl + _strip(iend), sfl + send, cell)
+    if tx.rewrites:
+        why = {"lower": "pattern 'A' no longer matches the name 'A'", "upper": "pattern 'a' no longer matches the name 'a'", "casefold": "pattern 'A' no longer matches the name 'A'",
+               "strip": "pattern ' a' matches the name 'a'", "lstrip": "pattern ' a' matches the name 'a'", "rstrip": "pattern 'a ' matches the name 'a'"}
+        if lossy:
+            rep.violation("C19.R1", RW_KEY, tx.mod.site(lossy[0][3]), f"`{short(lossy[0][3], 50)}` changes characters of the pattern before it is translated: every ordinary character must match only itself ({why.get(lossy[0][1], 'characters are changed')})")
+        elif RW_KEY in bad:
+            seq, got, want, cell = bad.pop(RW_KEY)
+            pat = "".join("c" if c == OTHER else c for c in seq)
+            seen = "".join("c" if c == OTHER else c for c in cell[1])
+            node = [rw for rw in tx.rewrites if rw[0] != "lossy"][0][3]
+            rep.violation("C19.R1", RW_KEY, tx.mod.site(node), f"`{short(node, 60)}` rewrites the raw pattern without regard to the backslash escape: pattern {pat!r} (c = any other character) reaches the character scan as {seen!r} and is translated to [{_show(got)}], the documented semantics require [{_show(want)}]")
+        else:
+            rep.ok("C19.R1", RW_KEY, site, f"{len(tx.rewrites)} rewrite(s) applied to every abstract pattern: translation unchanged up to ANY* ANY* = ANY*")
     cells = [(s, c) for s in ("N", "P") for c in tx.classes] + [("END", "N"), ("END", "P")]
     for cell in cells:
         key = _cell_key(fi, cell)
@@ -905,11 +1064,18 @@ class Kinds:
         t, v = n.targets[0], n.value
         # a, b = K.split(":", 1)
         if isinstance(v, ast.Call) and isinstance(v.func, ast.Attribute) and v.func.attr in ("split", "rsplit", "partition", "rpartition") and self.kind_of(v.func.value) == "DOMOTYPE":
-            ok = v.func.attr == "split" and len(v.args) == 2 and all(isinstance(a, ast.Constant) for a in v.args) and (v.args[0].value, v.args[1].value) == (":", 1)
-            if not ok or not (isinstance(t, (ast.Tuple, ast.List)) and len(t.elts) == 2):
-                raise Unsupported(f"{self.fi.qualname}: `{short(n, 60)}` - only `a, b = key.split(':', 1)` is understood")
-            self._bind(t.elts[0], "DOMAIN", n)
-            self._bind(t.elts[1], "OTYPE", n)
+            canon = _split_canon(v)
+            if canon is None or not isinstance(t, (ast.Tuple, ast.List)):
+                raise Unsupported(f"{self.fi.qualname}: `{short(n, 60)}` - split of the domain:type key not understood")
+            if v.func.attr in ("split", "rsplit") and len(t.elts) == 2:
+                dom, typ = t.elts
+            elif v.func.attr in ("partition", "rpartition") and len(t.elts) == 3:
+                dom, _, typ = t.elts
+            else:
+                raise Unsupported(f"{self.fi.qualname}: `{short(n, 60)}` - number of targets does not fit the split")
+            self.key_split = (canon, n)
+            self._bind(dom, "DOMAIN", n)
+            self._bind(typ, "OTYPE", n)
             return
         k = self.kind_of(v)
         if k == "ITEMTUP":
@@ -936,6 +1102,26 @@ class Kinds:
 
         fresh = ast.parse(ast.unparse(e), mode="eval").body  # a copy without the corpus' parent links
         return unparse(T().visit(fresh))
+
+
+_WHERE = {"first": "the first colon", "last": "the last colon", "every": "every colon"}
+
+
+def _split_canon(v: ast.Call) -> str | None:
+    """Where a `domain:type` string is cut: 'first' colon (split(':', 1), partition(':')), 'last' colon
+    (rsplit(':', 1), rpartition(':')) or at 'every' colon (split(':'))."""
+    args = v.args
+    if v.keywords or not args or not (isinstance(args[0], ast.Constant) and args[0].value == ":"):
+        return None
+    m = v.func.attr
+    if m in ("partition", "rpartition") and len(args) == 1:
+        return "first" if m == "partition" else "last"
+    if m in ("split", "rsplit"):
+        if len(args) == 1:
+            return "every"
+        if len(args) == 2 and isinstance(args[1], ast.Constant) and args[1].value == 1:
+            return "first" if m == "split" else "last"
+    return None
 
 
 def _kinds(corpus: Corpus, fq: str, rk: str, root: str = "INVS") -> Kinds:
@@ -1123,6 +1309,27 @@ def r3_pairing(corpus: Corpus, rep: Report, tier: str):
                 rep.violation("C19.R3", k, fi.module.site(loop), f"the loop iterates `{short(loop.iter, 50)}`: `{br[0]}` replaces the mapping's own (inventory) order")
             else:
                 rep.ok("C19.R3", k, fi.module.site(loop))
+        # (d2) the Sphinx `domain:type` key is cut where from_sphinx and the native loader cut it
+        if rk == "sphinx":
+            k = f"{fi.fq}|the domain:type key is split where from_sphinx / load split it"
+            mine = getattr(kd, "key_split", None)
+            if mine is None:
+                raise Unsupported(f"{fi.qualname}: split of the domain:type key not found")
+            others = []
+            fsk = _kinds(corpus, corpus.func("inventory:from_sphinx").fq, "sphinx", "SINV")
+            if getattr(fsk, "key_split", None) is None:
+                raise Unsupported("from_sphinx: split of the domain:type key not found")
+            others.append(("from_sphinx", fsk.key_split[0]))
+            lv2 = corpus.func("inventory:_load_v2")
+            for n in lv2.local_nodes():
+                if isinstance(n, ast.Assign) and isinstance(n.value, ast.Call) and isinstance(n.value.func, ast.Attribute) and n.value.func.attr in ("split", "rsplit", "partition", "rpartition") and isinstance(n.targets[0], (ast.Tuple, ast.List)) and _split_canon(n.value) is not None:
+                    others.append(("_load_v2", _split_canon(n.value)))
+            diff = [(w, c) for w, c in others if c != mine[0]]
+            if diff:
+                rep.violation("C19.R3", k, fi.module.site(mine[1]), f"`{short(mine[1], 60)}` cuts the key at {_WHERE[mine[0]]} but {diff[0][0]} cuts it at {_WHERE[diff[0][1]]}: for an object type that contains a colon "
+                              "(key `std:opt:long`) the Sphinx representation yields domain/type `std:opt`/`long` while the native representation of the same data has `std`/`opt:long`, so the two filters return different entries")
+            else:
+                rep.ok("C19.R3", k, fi.module.site(mine[1]), f"{_WHERE[mine[0]]}, as {', '.join(w for w, _ in others)}")
         # (e) every loop visits every entry of its level; the filter restricts the result only through match_with_wildcard
         aware = _wildcard_aware(fi, kd.filters)
         for loop in kd.loops:
@@ -2125,6 +2332,15 @@ def mutants(corpus: Corpus):
             add("c19-f14-end-flush-reverted", "C19.R1", inv, post[0], "pass", "end of pattern, backslash pending", canary=True)
         else:
             out.append(("c19-f14-end-flush-reverted", "F14 is not repaired on this tree: the end-of-pattern violation itself is live"))
+    # class "the raw pattern is rewritten before the character scan"
+    first = next((st for st in cr.node.body if not (isinstance(st, ast.Expr) and isinstance(st.value, ast.Constant))), None)
+    if first is not None and loop is not None:
+        seg = ast.get_source_segment(inv.src, first)
+        ind = " " * first.col_offset
+        pv = cr.params[0]
+        add("c19-pattern-star-runs-collapsed", "C19.R1", inv, first, f"{pv} = re.sub(r'\\*{{2,}}', '*', {pv})\n{ind}{seg}", "rewritten before it is translated")
+        add("c19-pattern-star-pairs-replaced", "C19.R1", inv, first, f"{pv} = {pv}.replace('**', '*')\n{ind}{seg}", "rewritten before it is translated")
+        add("c19-pattern-stripped", "C19.R1", inv, first, f"{pv} = {pv}.strip()\n{ind}{seg}", "rewritten before it is translated")
     # 647520d (re.DOTALL): revert
     if comp is not None and (len(comp.args) > 1 or comp.keywords):
         add("c19-dotall-reverted", "C19.R1", inv, comp, f"re.compile({unparse(comp.args[0])})", "wildcard fragment matches every character")
@@ -2190,6 +2406,17 @@ def mutants(corpus: Corpus):
     ocs = find_node(fs, lambda n: isinstance(n, ast.Call) and unparse(n.func) == "match_with_wildcard" and unparse(n.args[1]) == "otypes")
     if ocs is not None:
         add("c19-sphinx-compiled-pattern-search", "C19.R3", inv, ocs, f"_create_regex('*' if otypes is None else otypes).search({unparse(ocs.args[0])})", "OTYPE is tested with a whole-string")
+    # class "the domain:type key cut at another colon than from_sphinx / load cut it"
+    spf = find_node(fs, lambda n: isinstance(n, ast.Call) and isinstance(n.func, ast.Attribute) and n.func.attr == "split" and len(n.args) == 2)
+    if spf is not None:
+        add("c19-sphinx-key-split-at-last-colon", "C19.R3", inv, spf.func, f"{unparse(spf.func.value)}.rsplit", "key is split where")
+        spa = parent(spf)
+        if isinstance(spa, ast.Assign) and isinstance(spa.targets[0], ast.Tuple) and len(spa.targets[0].elts) == 2:
+            a_, b_ = [unparse(e) for e in spa.targets[0].elts]
+            add("c19-sphinx-key-rpartition", "C19.R3", inv, spa, f"{a_}, _, {b_} = {unparse(spf.func.value)}.rpartition(':')", "key is split where")
+    fsf = inv.func("from_sphinx")
+    spn = find_node(fsf, lambda n: isinstance(n, ast.Call) and isinstance(n.func, ast.Attribute) and n.func.attr == "split" and len(n.args) == 2)
+    add("c19-from-sphinx-split-at-last-colon", "C19.R3", inv, spn.func if spn is not None else None, f"{unparse(spn.func.value)}.rsplit" if spn is not None else "", "key is split where")
     # class "the joined domain:type key matched with one pattern"
     tst = find_node(fs, lambda n: isinstance(n, ast.If) and "domains" in unparse(n.test) and "otypes" in unparse(n.test))
     keyvar = find_node(fs, lambda n: isinstance(n, ast.Assign) and isinstance(n.value, ast.Call) and isinstance(n.value.func, ast.Attribute) and n.value.func.attr == "split")
